@@ -36,7 +36,7 @@ if rc != 0:
 else:
     run(f"git apply {src}/patch.diff")
 run(f"git diff HEAD > /tmp/seedconf/{name}.rebased.diff")
-rc, o = run("go build ./... 2>&1 | grep -v 'ld: \\|^#' ; exit ${PIPESTATUS[0]}")
+rc, o = run("go build ./... >/dev/null 2>&1")
 out["builds"] = rc == 0
 # existing suite (json) vs baseline
 rc, o = run("go test -mod=mod -json -vet=off -count=1 -timeout 25m ./... > /tmp/seedconf/%s.test.json 2>/dev/null; true" % name, timeout=2400)
